@@ -74,7 +74,7 @@ class Ctx:
     def note(self, text):
         self.notes.append(text)
 
-    def borrow(self, rule_fn, rename):
+    def borrow(self, rule_fn, rename, only=None):
         """run a rule of another property inside this check and re-label what it records
         (rename: {'C10.FINALLY': 'C19.RELEASE', ...}); used where one property's clause IS another property's rule"""
         sub = Ctx(self.prop, self.p, self.tier)
@@ -85,10 +85,10 @@ class Ctx:
             if r in rename:
                 self.rules[rename[r]] = dict(d)
         for o in sub.obligations:
-            if o["rule"] in rename:
+            if o["rule"] in rename and (only is None or only(o.get("site", "").split(":", 1)[-1])):
                 self.obligations.append(dict(o, rule=rename[o["rule"]]))
         for f in sub.findings:
-            if f.rule in rename:
+            if f.rule in rename and (only is None or only(f.function or "")):
                 g = Finding(self.prop, rename[f.rule], f.module, f.line, f.function, f.construct, f.message)
                 if g.key() not in {x.key() for x in self.findings}:
                     self.findings.append(g)
